@@ -2,6 +2,7 @@
   C02 — ICAO address recovery is exact and canonical for every downlink format.
 -/
 import PyModeS.Proofs.Hex
+import PyModeS.Proofs.CRC.Icao
 namespace PyModeS.C02
 
 /-- DF 11/17/18: the address is characters 3–8 of the frame (the AA field), in upper case. -/
@@ -18,5 +19,117 @@ theorem icao_none_otherwise (m : Msg)
 /-- DF values above 24 are reported as 24 -/
 theorem df_clamp (m : Msg) : df m ≤ 24 := by
   unfold df; exact Nat.min_le_right _ _
+
+/-! ### AP formats (DF 0/4/5/16/20/21): the address is recovered exactly -/
+
+/-- A1.  If the last 24 bits of the frame are `parity(data) XOR A` (Annex 10 address/parity
+    overlay), `icao` returns exactly the canonical rendering of `A`.  Any even length ≥ 6 hex
+    digits (so 14 and 28 in particular).  No hex well-formedness is needed by the proof: the
+    model reads a non-hex character as 0 where Python raises, so the statement is meaningful on
+    hex strings only.  The hypothesis forces `A < 2^24`. -/
+theorem icao_AP (m : Msg) (A : Nat) (hlen : 6 ≤ m.length) (heven : m.length % 2 = 0)
+    (hdf : df m = 0 ∨ df m = 4 ∨ df m = 5 ∨ df m = 16 ∨ df m = 20 ∨ df m = 21)
+    (hap : hexToNatM (takeLast 6 m) =
+      Spec.remH (hex2binM (dropLast 6 m) ++ List.replicate 24 false) ^^^ A) :
+    icao m = some (hex6 A) :=
+  CRC.icao_AP_of m A hlen heven hdf hap
+
+/-- `int(s, 16)` is `int(hex2bin(s), 2)` (used to read the hypothesis of `icao_AP` on bits) -/
+theorem hexToNatM_eq_bin2int (m : Msg) : hexToNatM m = bin2int (hex2binM m) :=
+  CRC.hexToNatM_eq_bin2int m
+
+/-- the downlink encoder: `data ++ (parity(data) xor A)` rendered as upper-case hex -/
+theorem encodeAP_def (d : Bits) (A : Nat) :
+    CRC.encodeAP d A =
+      CRC.hexOfBits (d ++ natToBits 24 (Spec.remH (d ++ List.replicate 24 false) ^^^ A)) := rfl
+
+/-- the encoder produces the bit string it should, and a hex string -/
+theorem encodeAP_bits (d : Bits) (A : Nat) (h4 : d.length % 4 = 0) :
+    hex2binM (CRC.encodeAP d A) = d ++ natToBits 24 (Spec.remH (d ++ List.replicate 24 false) ^^^ A) ∧
+    (∀ c ∈ CRC.encodeAP d A, (hexVal? c).isSome) :=
+  ⟨CRC.hex2binM_encodeAP d A h4, CRC.hexOfBits_isHex _⟩
+
+/-- A1, encoder form: the hypothesis of `icao_AP` is satisfied by the encoded frame for every
+    address, payload and length … -/
+theorem icao_AP_hyp_satisfiable (d : Bits) (A : Nat) (hA : A < 2 ^ 24) (h4 : d.length % 4 = 0) :
+    hexToNatM (takeLast 6 (CRC.encodeAP d A)) =
+      Spec.remH (hex2binM (dropLast 6 (CRC.encodeAP d A)) ++ List.replicate 24 false) ^^^ A :=
+  (CRC.encodeAP_spec d A hA h4).2
+
+/-- … hence decoding inverts encoding: any whole number ≥ 1 of data bytes, any address. -/
+theorem icao_AP_encoder (d : Bits) (A : Nat) (hA : A < 2 ^ 24) (h8 : d.length % 8 = 0)
+    (hd : 8 ≤ d.length)
+    (hdf : dfB d = 0 ∨ dfB d = 4 ∨ dfB d = 5 ∨ dfB d = 16 ∨ dfB d = 20 ∨ dfB d = 21) :
+    icao (CRC.encodeAP d A) = some (hex6 A) :=
+  CRC.icao_encodeAP d A hA h8 hd hdf
+
+/-- real DF20 frame from the tests: hypotheses of `icao_AP` hold with A = 0x400940 -/
+example : let m := "A0001839CA3800315800007448D9".toList
+    6 ≤ m.length ∧ m.length % 2 = 0 ∧ df m = 20 ∧
+    hexToNatM (takeLast 6 m) =
+      Spec.remH (hex2binM (dropLast 6 m) ++ List.replicate 24 false) ^^^ 0x400940 ∧
+    icao m = some "400940".toList := by decide +kernel
+/-- the encoder reproduces that frame from its 88 data bits; a short (56-bit) DF4 frame too -/
+example : CRC.encodeAP (hex2bin "A0001839CA380031580000") 0x400940
+      = "A0001839CA3800315800007448D9".toList ∧
+    CRC.encodeAP (hex2bin "20000F1F") 0xABCDEF = "20000F1F8EA7A0".toList ∧
+    icao "20000F1F8EA7A0".toList = some "ABCDEF".toList := by decide +kernel
+
+/-! ### canonical form of the result -/
+
+/-- A2.  `"%06X" % A` for `A < 2^24`: exactly six characters, all in 0-9A-F, whose value is `A`
+    (so the map `A ↦ hex6 A` is injective and never yields lower case). -/
+theorem hex6_spec (A : Nat) (hA : A < 2 ^ 24) :
+    (hex6 A).length = 6 ∧ hexToNatM (hex6 A) = A ∧
+    (∀ c ∈ hex6 A, c ∈ "0123456789ABCDEF".toList) := by
+  rw [CRC.hex6_eq_hexN hA]
+  refine ⟨CRC.hexN_length 6 A, ?_, CRC.hexN_upper 6 A⟩
+  rw [CRC.hexToNatM_hexN]
+  exact Nat.mod_eq_of_lt (by simpa using hA)
+
+theorem hex6_injective (A B : Nat) (hA : A < 2 ^ 24) (hB : B < 2 ^ 24) (h : hex6 A = hex6 B) :
+    A = B := by
+  rw [← (hex6_spec A hA).2.1, ← (hex6_spec B hB).2.1, h]
+
+example : hex6 0x00A0FF = "00A0FF".toList ∧ hex6 0 = "000000".toList := by decide +kernel
+
+/-- A3.  `icao` does not depend on the letter case of a hex string, for any DF. -/
+theorem icao_case_insensitive (m : Msg) (hm : ∀ c ∈ m, (hexVal? c).isSome) :
+    icao (m.map Char.toLower) = icao m ∧ icao (m.map Char.toUpper) = icao m :=
+  ⟨CRC.icao_toLower m hm, CRC.icao_toUpper m hm⟩
+
+example : (∀ c ∈ "8d406B902015a678D4d220aa4bDA".toList, (hexVal? c).isSome) ∧
+    icao "8d406b902015a678d4d220aa4bda".toList = some "406B90".toList ∧
+    icao "a0001839ca3800315800007448d9".toList = some "400940".toList := by decide +kernel
+
+/-- DF 11/17/18: the returned string is the canonical rendering of the value of the AA field. -/
+theorem icao_AA_canonical (m : Msg) (hm : ∀ c ∈ m, (hexVal? c).isSome) (h8 : 8 ≤ m.length)
+    (hdf : df m = 11 ∨ df m = 17 ∨ df m = 18) :
+    icao m = some (hex6 (hexToNatM (slice 2 8 m))) :=
+  (CRC.icao_AA_canonical m hm h8 hdf).1
+
+/-- `icao_canonical`: a squitter (AA field = A) and an AP-format reply (parity overlaid with A)
+    from the same transponder give the same string `hex6 A`, whatever the letter case of
+    either input. -/
+theorem icao_canonical (m₁ m₂ : Msg) (A : Nat)
+    (hm₁ : ∀ c ∈ m₁, (hexVal? c).isSome) (hm₂ : ∀ c ∈ m₂, (hexVal? c).isSome)
+    (h8 : 8 ≤ m₁.length) (hdf₁ : df m₁ = 11 ∨ df m₁ = 17 ∨ df m₁ = 18)
+    (hAA : hexToNatM (slice 2 8 m₁) = A)
+    (hlen : 6 ≤ m₂.length) (heven : m₂.length % 2 = 0)
+    (hdf₂ : df m₂ = 0 ∨ df m₂ = 4 ∨ df m₂ = 5 ∨ df m₂ = 16 ∨ df m₂ = 20 ∨ df m₂ = 21)
+    (hap : hexToNatM (takeLast 6 m₂) =
+      Spec.remH (hex2binM (dropLast 6 m₂) ++ List.replicate 24 false) ^^^ A) :
+    icao m₁ = some (hex6 A) ∧ icao m₂ = some (hex6 A) ∧
+    icao (m₁.map Char.toLower) = some (hex6 A) ∧ icao (m₁.map Char.toUpper) = some (hex6 A) ∧
+    icao (m₂.map Char.toLower) = some (hex6 A) ∧ icao (m₂.map Char.toUpper) = some (hex6 A) := by
+  have e1 : icao m₁ = some (hex6 A) := by rw [icao_AA_canonical m₁ hm₁ h8 hdf₁, hAA]
+  have e2 : icao m₂ = some (hex6 A) := icao_AP m₂ A hlen heven hdf₂ hap
+  have c1 := icao_case_insensitive m₁ hm₁
+  have c2 := icao_case_insensitive m₂ hm₂
+  exact ⟨e1, e2, c1.1.trans e1, c1.2.trans e1, c2.1.trans e2, c2.2.trans e2⟩
+
+/-- two real frames of different formats, mixed case, same result type -/
+example : icao "8D400940000000000000000C0F7E".toList = icao "a0001839CA3800315800007448d9".toList := by
+  decide +kernel
 
 end PyModeS.C02
